@@ -226,6 +226,8 @@ class GenCfg:
     parens: bool = False
     partial_names: list[str] = field(default_factory=list)  # names available to include/render
     allow_include: bool = True
+    var_partial_name: bool = True  # `include pname` (name bound in data by the driver); off inside partials: pname may name the partial itself,
+    # and a self-including partial under a loop in lax mode fans out to loop_length ** context_depth_limit renders (a harness hang, not a verdict)
     allow_render: bool = True
     tags: set[str] | None = None  # restrict to these tag names (None = all standard)
     filters_ok: set[str] | None = None  # restrict filters
@@ -533,7 +535,7 @@ class Gen:
         name = self.ch(self.cfg.partial_names)
         self.meta.partials.add(name)
         expr = f"'{name}'"
-        if k == "include" and self.p(0.1):
+        if k == "include" and self.p(0.1) and self.cfg.var_partial_name:
             expr = "pname"  # variable template name, bound in data by the driver
             self.meta.roots.add("pname")
         r = self.rng.random()
@@ -677,6 +679,7 @@ def gen_template_set(rng: random.Random, cfg: GenCfg, n_partials: int = 2) -> tu
     for i in reversed(range(n_partials)):
         sub = GenCfg(**{**cfg.__dict__})
         sub.partial_names = names[i + 1 :]
+        sub.var_partial_name = False
         sub.max_nodes = max(4, cfg.max_nodes // 2)
         g = Gen(rng, sub)
         g.local_names = ["item", "v", "arg"]
